@@ -631,6 +631,11 @@ func (s *State) Revert(
 		return fmt.Errorf("remove declared classes: %v", err)
 	}
 
+	err = s.removeDeployedContractClasses(blockNumber, update.StateDiff.DeployedContracts)
+	if err != nil {
+		return fmt.Errorf("remove classes of deployed contracts: %v", err)
+	}
+
 	err = s.revertMigratedCasmClasses(update.StateDiff.MigratedClasses)
 	if err != nil {
 		return fmt.Errorf("revert migrated casm classes: %v", err)
@@ -720,6 +725,42 @@ func (s *State) removeDeclaredClasses(
 	for _, cHash := range classHashes {
 		declaredClass, err := s.Class(cHash)
 		if err != nil {
+			return fmt.Errorf("get class %s: %v", cHash, err)
+		}
+		if declaredClass.At != blockNumber {
+			continue
+		}
+
+		if err = s.txn.Delete(db.ClassKey(cHash)); err != nil {
+			return fmt.Errorf("delete class: %v", err)
+		}
+
+		if _, ok := declaredClass.Class.(*core.SierraClass); ok {
+			if _, err = classesTrie.Put(cHash, &felt.Zero); err != nil {
+				return err
+			}
+		}
+	}
+	return classesCloser()
+}
+
+// removeDeployedContractClasses removes the classes that Update registered at blockNumber for
+// deployed contracts (sync supplies the definition of a deployed contract's class when the
+// state does not know it, whether or not the class is in the declared lists).
+func (s *State) removeDeployedContractClasses(
+	blockNumber uint64,
+	deployedContracts map[felt.Felt]*felt.Felt,
+) error {
+	classesTrie, classesCloser, err := s.classesTrie()
+	if err != nil {
+		return err
+	}
+	for _, cHash := range deployedContracts {
+		declaredClass, err := s.Class(cHash)
+		if err != nil {
+			if errors.Is(err, db.ErrKeyNotFound) {
+				continue // never registered, or already removed
+			}
 			return fmt.Errorf("get class %s: %v", cHash, err)
 		}
 		if declaredClass.At != blockNumber {
